@@ -4,7 +4,7 @@
             Spec.v (normal-equation residuals and the reported error are
             evaluated on the IMPLEMENTATION's coefficients). *)
 From Coq Require Import List Bool Arith ZArith QArith Qcanon String.
-From AL Require Import Base.CaseLib C10.Model C10.Spec.
+From AL Require Import Base.CaseLib C10.Model C10.Spec C10.TabLib C10.Gen_Tables.
 Import ListNotations.
 Open Scope Qc_scope.
 
@@ -56,6 +56,23 @@ Definition holds_tab (c : tcase) : bool :=
      | TErr _ => (n <? lags)%nat        (* documented: ValueError when max_lag >= len(blk) *)
      end
   && tab_eqb (t_toep c) (table n n (fun j i => cf x (dist i j))).
+
+(* the same three functions against the definitions GENERATED from their source (Gen_Tables.v), with integer
+   max_lag (negative values included): ties the translator's vocabulary (TabLib.v) to the running code *)
+Record zcase := ZC { z_blk : list Qc; z_lag : option Z;
+                     z_acorr : list Qc; z_lagm : tobs; z_toep : list (list Qc) }.
+
+Definition corr_tabz (c : zcase) : bool :=
+  list_eqb Qc_eqb (z_acorr c) (gen_acorr (z_blk c) (z_lag c))
+  && tobs_eqb (z_lagm c) (gen_lag_matrix (z_blk c) (z_lag c))
+  && tab_eqb (z_toep c) (gen_toeplitz (z_blk c)).
+
+Definition holds_tabz (c : zcase) : bool :=
+  match z_lag c with
+  | None => holds_tab (TC (z_blk c) None (z_acorr c) (z_lagm c) (z_toep c))
+  | Some z => if (z <? 0)%Z then true      (* the text says nothing about a negative max_lag *)
+              else holds_tab (TC (z_blk c) (Some (Z.to_nat z)) (z_acorr c) (z_lagm c) (z_toep c))
+  end.
 
 (* ------------------------------------------------------------------ levinson_durbin *)
 Record lcase := LC { l_r : list Qc; l_order : option nat; l_obs : fobs }.
